@@ -178,12 +178,35 @@ def _i(v):
     raise Unsupported(f"cannot use {type(v).__name__} as an integer term")
 
 
+def _has_ite(t, depth=0):
+    if depth > 3:
+        return True
+    if z3.is_app(t):
+        if t.decl().kind() == z3.Z3_OP_ITE:
+            return True
+        return any(_has_ite(ch, depth + 1) for ch in t.children())
+    return False
+
+
+def _name_if_nested(t, hint):
+    """give a nested if-then-else term a name (fresh constant with a defining equation) to keep
+    formulas small; purely definitional, so sound"""
+    c = _CTX[0]
+    if c is None or c.spec:
+        return t
+    if z3.is_app(t) and t.decl().kind() == z3.Z3_OP_ITE and any(_has_ite(ch) for ch in t.children()):
+        v = z3.Int(c.fresh_name(hint)) if z3.is_int(t) else z3.Real(c.fresh_name(hint))
+        c.assume(v == t)
+        return v
+    return t
+
+
 def smin(a, b):
     if not is_sym(a) and not is_sym(b):
         return min(a, b)
     if isinstance(a, (SReal, float)) or isinstance(b, (SReal, float)):
-        return SReal(z3.If(_r(b) < _r(a), _r(b), _r(a)))
-    return SInt(z3.If(_i(b) < _i(a), _i(b), _i(a)))
+        return SReal(_name_if_nested(z3.If(_r(b) < _r(a), _r(b), _r(a)), "rmin"))
+    return SInt(_name_if_nested(z3.If(_i(b) < _i(a), _i(b), _i(a)), "min"))
 
 
 def smax(a, b):
@@ -191,7 +214,7 @@ def smax(a, b):
         return max(a, b)
     if isinstance(a, (SReal, float)) or isinstance(b, (SReal, float)):
         return SReal(z3.If(_r(b) > _r(a), _r(b), _r(a)))
-    return SInt(z3.If(_i(b) > _i(a), _i(b), _i(a)))
+    return SInt(_name_if_nested(z3.If(_i(b) > _i(a), _i(b), _i(a)), "max"))
 
 
 class SInt(Sym):
@@ -961,6 +984,10 @@ class Ctx:
         et = _i(e)
         if self.fork(et < 0):
             raise Unsupported("2 ** negative (float result)")
+        if not (z3.is_const(et) or z3.is_int_value(et)):
+            v = z3.Int(self.fresh_name("exp"))
+            self.assume(v == et)
+            et = v
         p = self._pow2(et)
         self.assume(p >= 1)
         self.assume(p > et)
